@@ -6,6 +6,7 @@ import (
 	"context"
 	"fmt"
 	"os"
+	"strings"
 	"time"
 
 	"github.com/pingcap/kvproto/pkg/metapb"
@@ -14,6 +15,7 @@ import (
 	"github.com/tikv/pd/pkg/tempurl"
 	"github.com/tikv/pd/pkg/typeutil"
 	"github.com/tikv/pd/server"
+	"github.com/tikv/pd/server/api"
 	"github.com/tikv/pd/server/config"
 	"go.etcd.io/etcd/embed"
 	"go.uber.org/zap"
@@ -115,4 +117,79 @@ func (x *Srv) Bootstrap(store *metapb.Store) error {
 		time.Sleep(10 * time.Millisecond)
 	}
 	return nil
+}
+
+// StartMembers creates and runs n real servers forming one PD cluster (with the HTTP API, so that members can be offered
+// files through /pd/api/v1/admin/persist-file) and waits until one of them is the leader.
+func StartMembers(n int) ([]*Srv, error) {
+	log.ReplaceGlobals(zap.NewNop(), nil)
+	cfgs := make([]*config.Config, n)
+	var initial []string
+	for i := range cfgs {
+		cfg := &config.Config{
+			Name:                fmt.Sprintf("pd%d", i+1),
+			ClientUrls:          tempurl.Alloc(),
+			PeerUrls:            tempurl.Alloc(),
+			InitialClusterState: embed.ClusterStateFlagNew,
+			LeaderLease:         3,
+			TSOSaveInterval:     typeutil.NewDuration(200 * time.Millisecond),
+		}
+		cfg.AdvertiseClientUrls = cfg.ClientUrls
+		cfg.AdvertisePeerUrls = cfg.PeerUrls
+		cfg.DataDir, _ = os.MkdirTemp("", "verif_pd")
+		cfg.DisableStrictReconfigCheck = true
+		cfg.TickInterval = typeutil.NewDuration(100 * time.Millisecond)
+		cfg.ElectionInterval = typeutil.NewDuration(3 * time.Second)
+		cfg.LeaderPriorityCheckInterval = typeutil.NewDuration(100 * time.Millisecond)
+		cfg.Log.Level = "fatal"
+		cfg.Log.File.Filename = "/dev/null"
+		initial = append(initial, fmt.Sprintf("%s=%s", cfg.Name, cfg.PeerUrls))
+		cfgs[i] = cfg
+	}
+	for _, cfg := range cfgs {
+		cfg.InitialCluster = strings.Join(initial, ",")
+		if err := cfg.SetupLogger(); err != nil {
+			return nil, err
+		}
+		if err := cfg.Adjust(nil, false); err != nil {
+			return nil, err
+		}
+	}
+	log.ReplaceGlobals(zap.NewNop(), nil)
+	out := make([]*Srv, n)
+	errs := make(chan error, n)
+	for i, cfg := range cfgs {
+		go func(i int, cfg *config.Config) {
+			ctx, cancel := context.WithCancel(context.Background())
+			s, err := server.CreateServer(ctx, cfg, api.NewHandler)
+			if err == nil {
+				err = s.Run()
+			}
+			if err != nil {
+				cancel()
+				errs <- err
+				return
+			}
+			out[i] = &Srv{S: s, Cfg: cfg, cancel: cancel}
+			errs <- nil
+		}(i, cfg)
+	}
+	for range cfgs {
+		if err := <-errs; err != nil {
+			return nil, err
+		}
+	}
+	log.ReplaceGlobals(zap.NewNop(), nil)
+	dl := time.Now().Add(40 * time.Second)
+	for {
+		for _, x := range out {
+			if x.S.GetMember().IsLeader() {
+				return out, nil
+			}
+		}
+		if time.Now().After(dl) {
+			return nil, fmt.Errorf("no member became leader")
+		}
+		time.Sleep(20 * time.Millisecond)
+	}
 }
